@@ -164,7 +164,7 @@ def check(run):
     okd, dlog = common.build_driver("tr")
     final_found = None
     n = 200 if thorough else 25
-    cases = [tr.rand_case(rng) for _ in range(n)]
+    cases = [tr.rand_case(rng) for _ in range(n)] + [tr.rand_case(rng, rng.randint(17, 20))]   # incl. one mixture larger than any shipped one
     if not okd:
         broken.append({"stage": "extraction", "detail": dlog[-600:]})
     else:
@@ -174,6 +174,11 @@ def check(run):
             iq, iqh = tr.impl_matrices(c)
             run.count(1, distinct_key=(c["nb"], tuple(c["masses"]), tuple(c["nd"])), nontrivial=True)
             for a, b, nm in ((iq, mq, "q"), (iqh, mqh, "qhat")):
+                if a.shape != b.shape:
+                    dis += 1
+                    if not any(x.get("stage") == "correspondence" for x in broken):
+                        broken.append({"stage": "correspondence", "detail": {"matrix": nm, "what": f"the implementation assembles a {a.shape[0]}x{a.shape[1]} matrix for {c['nb']} species, the model {b.shape[0]}x{b.shape[1]}"}})
+                    continue
                 sc = np.maximum(np.abs(a), np.max(np.abs(a), axis=1, keepdims=True) * 1e-3)
                 e = float(np.max(np.abs(a - b) / np.where(sc > 0, sc, 1)))
                 if e > 1e-11:
